@@ -292,6 +292,12 @@ class SStr:
             rest = SStr(self.pieces[: rest_idx - 1] + (tail,))
             if not rest.endswith(suffix):
                 return False
+        # the part of the suffix that must come out of the atom: a character the atom excludes cannot be there
+        from_rest = suffix[: len(suffix) - len(tail)]
+        for ch in from_rest:
+            # a character that occurs in no literal piece before the tail and that every atom excludes cannot be matched
+            if all((isinstance(p_, str) and ch not in p_) or (isinstance(p_, Atom) and ch in p_.excludes) for p_ in self.pieces[:rest_idx]):
+                return False
         if isinstance(prv, Atom) and prv.nonempty:
             if prv.has_last(need) is False:
                 return False
